@@ -200,6 +200,21 @@ def tlc(spec_tla, cfg, workers=8, timeout=900, simulate=None, depth=None, seed_=
     return r
 
 
+def apalache(spec_tla, init, inv, length, timeout=900):
+    """One Apalache bounded check (used for inductive invariants: `length=0` from Init, `length=1` from the invariant itself)."""
+    spec_tla = spec_tla if os.path.isabs(spec_tla) else os.path.join(SPEC, spec_tla)
+    out_dir = os.path.join(OUT, "work", "apalache-%d" % os.getpid())
+    cmd = ["apalache-mc", "check", "--out-dir=" + out_dir, "--init=" + init, "--inv=" + inv, "--length=%d" % length, spec_tla]
+    t0 = time.time()
+    try:
+        rc, out = sh(cmd, timeout=timeout, cwd=os.path.dirname(spec_tla))
+    except subprocess.TimeoutExpired:
+        raise ToolError("apalache timed out: " + " ".join(cmd))
+    shutil.rmtree(out_dir, ignore_errors=True)
+    ok = "The outcome is: NoError" in out and rc == 0
+    return ok, out, time.time() - t0, " ".join(cmd)
+
+
 def extract_replays(res, path):
     """Write the JSON payloads of PrintT(<<"REPLAY", ToJson(x)>>) lines to an NDJSON file."""
     n = 0
